@@ -212,6 +212,7 @@ func compareCLI(prog string, in any, inJSON string) (ok bool, ref, fq string) {
 
 type sizes struct {
 	inputs, progs, extra, cli, workers int
+	top                                  int // programs that are one top-level shape (all of them also go through the CLI)
 	batchShare                           int // percent of (program,input) pairs evaluated in batch mode
 }
 
@@ -248,9 +249,9 @@ func main() {
 		emitJSONText(o, cfg)
 		return
 	}
-	sz := sizes{inputs: 24, progs: 1500, extra: 2, cli: 100, workers: 4, batchShare: 60}
+	sz := sizes{inputs: 24, progs: 1500, extra: 2, cli: 80, workers: 4, batchShare: 60, top: 170}
 	if cfg.Thorough() {
-		sz = sizes{inputs: 64, progs: 12000, extra: 2, cli: 500, workers: 4, batchShare: 60}
+		sz = sizes{inputs: 64, progs: 12000, extra: 2, cli: 400, workers: 4, batchShare: 60, top: 1200}
 	}
 	if s := os.Getenv("VERIF_C07_PROGS"); s != "" {
 		sz.progs, _ = strconv.Atoi(s)
@@ -277,7 +278,13 @@ func generate(o *hlib.Out, cfg hlib.Config, sz sizes) {
 	for len(progs) < sz.progs {
 		pr := r.Fork()
 		target := len(progs) % sz.inputs
-		text, feats := genProgram(pr, inputs[target])
+		var text string
+		var feats map[string]bool
+		if len(progs) < sz.top {
+			text, feats = genTopProgram(pr, inputs[target])
+		} else {
+			text, feats = genProgram(pr, inputs[target])
+		}
 		if len(text) > 900 || seen[text] || strings.ContainsAny(text, "\t\n\r") && false {
 			dropped++
 			continue
@@ -285,10 +292,13 @@ func generate(o *hlib.Out, cfg hlib.Config, sz sizes) {
 		seen[text] = true
 		if q, err := gojq.Parse(text); err != nil {
 			nonCompiling++
-			if nonCompiling%25 != 0 {
+			if feats["top"] {
+				feats["noncompiling"] = true // a program the parser rejects is a top-level shape too (exit 3)
+			} else if nonCompiling%25 != 0 {
 				continue
+			} else {
+				feats = map[string]bool{"noncompiling": true}
 			}
-			feats = map[string]bool{"noncompiling": true}
 		} else if _, err := gojq.Compile(q, refOpts...); err != nil {
 			nonCompiling++
 			if nonCompiling <= 5 {
@@ -297,10 +307,13 @@ func generate(o *hlib.Out, cfg hlib.Config, sz sizes) {
 			if os.Getenv("VERIF_C07_DEBUG") != "" {
 				fmt.Fprintln(os.Stderr, "noncompiling:", err.Error())
 			}
-			if nonCompiling%25 != 0 {
+			if feats["top"] {
+				feats["noncompiling"] = true
+			} else if nonCompiling%25 != 0 {
 				continue
+			} else {
+				feats = map[string]bool{"noncompiling": true}
 			}
-			feats = map[string]bool{"noncompiling": true}
 		}
 		p := progInfo{text: text, feats: feats, target: target, inputs: []int{target}}
 		for len(p.inputs) < 1+sz.extra && len(p.inputs) < sz.inputs {
@@ -331,7 +344,7 @@ func generate(o *hlib.Out, cfg hlib.Config, sz sizes) {
 				continue
 			}
 			mode := "d"
-			if p.feats["noncompiling"] {
+			if p.feats["noncompiling"] || p.feats["top"] {
 				mode = "d"
 			} else if int(fnv64(p.text+strconv.Itoa(k))%100) < sz.batchShare {
 				mode = "b"
@@ -500,6 +513,21 @@ func generate(o *hlib.Out, cfg hlib.Config, sz sizes) {
 		for k := 0; k < n; k++ {
 			pi := cand[cr.Intn(len(cand))]
 			cjs = append(cjs, cj{pi, progs[pi].inputs[cr.Intn(len(progs[pi].inputs))]})
+		}
+		// every top-level-shape program on its first two inputs (compile errors included: exit 3)
+		isCand := map[int]bool{}
+		for _, pi := range cand {
+			isCand[pi] = true
+		}
+		for pi, p := range progs {
+			if !p.feats["top"] || (!isCand[pi] && len(perProg[pi]) > 0) {
+				continue
+			}
+			for k, ii := range p.inputs {
+				if k < 2 {
+					cjs = append(cjs, cj{pi, ii})
+				}
+			}
 		}
 		out := make([]caseRes, len(cjs))
 		var wg2 sync.WaitGroup
